@@ -452,7 +452,7 @@ fn chain_state<K: El, V: El>(s: &mut Sess<K, V>, state: u64, size: usize, next: 
             true
         }
         // main table with tombstones, old table present
-        _ => {
+        5 => {
             if !(s.fill_to_full(next, 4096) && s.insert_new(next)) {
                 return false;
             }
@@ -463,6 +463,24 @@ fn chain_state<K: El, V: El>(s: &mut Sess<K, V>, state: u64, size: usize, next: 
                 }
             }
             true
+        }
+        // resize started by reserve: every element in the old table, the main table empty
+        _ => {
+            if s.mon.map.is_empty() {
+                return false;
+            }
+            if s.mon.state().old.is_some() {
+                // finish the pending resize first
+                let mut guard = 0;
+                while s.mon.state().old.is_some() && guard < 4096 {
+                    guard += 1;
+                    if !s.insert_new(next) {
+                        return false;
+                    }
+                }
+            }
+            let free = (s.mon.map.capacity() - s.mon.map.len()) as u64;
+            s.go(Op::n(Code::Reserve, free + 1)) && s.mon.state().old.is_some()
         }
     }
 }
@@ -537,7 +555,7 @@ pub fn chains(a: &Args, rep: &mut Report) {
     let mut classes_seen = [0u64; 4];
     for (ti, t) in templates.iter().enumerate() {
         for &size in &sizes {
-            for state in 0..6u64 {
+            for state in 0..7u64 {
                 for class in 0..4usize {
                     case += 1;
                     if case % sh.count != sh.index {
